@@ -329,7 +329,7 @@ pub fn run(tier: &str, seed: u64, out: &str) {
     let tot = Tot { states: AtomicU64::new(0), attack: AtomicU64::new(0), defence: AtomicU64::new(0), searches: AtomicU64::new(0) };
     let mut parts = Vec::new();
     let mut samples = Vec::new();
-    let wall_cap = if thorough { 3000.0 } else { 50.0 };
+    let wall_cap = if thorough { 3000.0 } else { 100.0 };
 
     // ---- neighbourhoods of the special roots (model-side enumeration to depth d)
     {
